@@ -266,10 +266,15 @@ func Send[T any](site string, ch chan<- T, v T) {
 	Select(site, SendCase(ch, v))
 }
 
-// Close is `close(ch)` with a scheduling point in front.
+// Close is `close(ch)` with a scheduling point in front and one behind (a real
+// goroutine can be preempted right after a close, which matters for code that
+// publishes through the close and writes the published fields only afterwards).
 func Close[T any](site string, ch chan<- T) {
 	Yield(site)
 	close(ch)
+	if s := Active(); s != nil && s.Self() != nil && !s.Ended() {
+		Yield(site + "(closed)")
+	}
 }
 
 // TrySelect is a select with a default clause: returns -1 if no clause is ready.
